@@ -84,7 +84,7 @@ def winnowDict {κ} : List (κ × ExitCode) → Except (κ × Int) (List (κ × 
 winnow function polls them -/
 inductive Container where
   | list | dict
-  deriving Repr, BEq, DecidableEq, Inhabited
+  deriving Repr, DecidableEq, Inhabited
 
 /-- the workers whose exit code is visible at one poll -/
 abbrev Poll := List Nat
@@ -121,7 +121,7 @@ inductive WaitRes where
   | done (procs : Procs) (sched : List Poll)
   | failed (code : Int)
   | spin
-  deriving Repr, BEq, DecidableEq
+  deriving Repr, DecidableEq
 
 /-- `while len(container) >= limit: container = winnow(container)`; every
 iteration consumes one poll of the schedule -/
@@ -146,7 +146,7 @@ inductive LoopStmt where
   | start (registered : Bool)
   /-- `while len(c) >= n_processors: c = winnow(c)` -/
   | pollWhileFull
-  deriving Repr, BEq, DecidableEq, Inhabited
+  deriving Repr, DecidableEq, Inhabited
 
 /-- statements of the stage, in source order (calls into the next function of
 the stage's call chain are inlined by the translator) -/
@@ -160,7 +160,7 @@ inductive Stmt where
   | drain
   /-- `shutil.move(src=<scratch>, dst=<requested output>)` -/
   | moveIntoPlace
-  deriving Repr, BEq, DecidableEq, Inhabited
+  deriving Repr, DecidableEq, Inhabited
 
 /-- how the stage combines what its workers produced (C04) -/
 inductive Merge where
@@ -177,7 +177,7 @@ inductive Merge where
   | dictByKey
   /-- the translator did not recognise the merge -/
   | unknown
-  deriving Repr, BEq, DecidableEq, Inhabited
+  deriving Repr, DecidableEq, Inhabited
 
 structure Stage where
   name : String
@@ -186,7 +186,7 @@ structure Stage where
   /-- scratch directory removed in a `finally` of the call chain -/
   tryFinally : Bool
   merge : Merge
-  deriving Repr, BEq, DecidableEq, Inhabited
+  deriving Repr, DecidableEq, Inhabited
 
 structure Env where
   nItems : Nat
@@ -206,7 +206,7 @@ structure St where
   draws : Nat := 0
   /-- `(worker, index of the parent draw that seeded it)` -/
   seeds : List (Nat × Nat) := []
-  deriving Repr, BEq, DecidableEq, Inhabited
+  deriving Repr, DecidableEq, Inhabited
 
 inductive Res where
   | ok (s : St)
@@ -214,7 +214,7 @@ inductive Res where
   | failed (code : Int) (s : St)
   /-- a `while` loop waits for ever -/
   | spin (s : St)
-  deriving Repr, BEq, DecidableEq
+  deriving Repr, DecidableEq
 
 def execLoopStmt (kind : Container) (env : Env) : LoopStmt → St → Res
   | .draw, s => .ok { s with draws := s.draws + 1, seeds := s.seeds ++ [(s.started, s.draws)] }
@@ -296,6 +296,17 @@ def drainedFrom : Bool → List Stmt → Bool
 
 def wellFormed (prog : List Stmt) : Bool := allRegistered prog && drainedFrom false prog
 
+/-- the stage has a dispatch loop at all (an unrecognised stage is emitted by
+the translator with an empty program) -/
+def hasDispatch : List Stmt → Bool
+  | [] => false
+  | .dispatch _ :: _ => true
+  | _ :: r => hasDispatch r
+
+/-- what `./check` demands of every regenerated stage skeleton -/
+def Stage.ok (s : Stage) : Bool :=
+  wellFormed s.prog && hasDispatch s.prog && s.merge != .unknown
+
 /-- the skeleton every stage is expected to have:
 ```
 for item in items:
@@ -307,7 +318,7 @@ def canonicalProg : List Stmt := [.dispatch [.start true, .pollWhileFull], .drai
 
 inductive Outcome where
   | ok | failed (code : Int) | spin
-  deriving Repr, BEq, DecidableEq
+  deriving Repr, DecidableEq
 
 def Res.outcome : Res → Outcome
   | .ok _ => .ok
@@ -341,14 +352,14 @@ structure InnerRun where
   logRequested : Bool := true
   jsonRequested : Bool := true
   hdf5Requested : Bool := true
-  deriving Repr, BEq, DecidableEq, Inhabited
+  deriving Repr, DecidableEq, Inhabited
 
 inductive LogLine where
   | info (msg : String)     -- anything `_run_mapping` logs on its way
   | success                 -- "MAPPING FROM SPECIFIED MARKERS RAN SUCCESSFULLY"
   | traceback               -- "an ERROR occurred ===="
   | cleaningUp              -- "CLEANING UP"
-  deriving Repr, BEq, DecidableEq, Inhabited
+  deriving Repr, DecidableEq, Inhabited
 
 /-- the keys of the `output` dict -/
 abbrev Keys := List String
@@ -384,7 +395,7 @@ structure MappingWorld where
   csv : Bool
   /-- the log file, if written -/
   logFile : Option (List LogLine)
-  deriving Repr, BEq, DecidableEq
+  deriving Repr, DecidableEq
 
 /-- `run_mapping`
 ```
@@ -447,7 +458,7 @@ structure MappingShape where
   datasets only under `run_succeeded` -/
   hdf5SkipsResults : Bool
   hdf5ResultsGuarded : Bool
-  deriving Repr, BEq, DecidableEq, Inhabited
+  deriving Repr, DecidableEq, Inhabited
 
 def expectedMappingShape : MappingShape :=
   { outputInitEmpty := true, outputAssignedFromInner := true,
